@@ -1671,6 +1671,8 @@ class Arr2:
         return self._elem(r, c)
 
     def __getitem__(self, idx):
+        if isinstance(idx, slice):
+            idx = (idx, slice(None))
         if isinstance(idx, tuple) and len(idx) == 2 and all(isinstance(s, slice) for s in idx):
             rlo, rn = norm_slice(idx[0], self.rows)
             clo, cn = norm_slice(idx[1], self.cols)
